@@ -53,10 +53,40 @@ pub fn run(tier: Tier, rep: &mut Report) -> (String, String) {
         one(r, b);
         r.sample(|| format!("{b:02x?}"));
     }));
+    // longer inputs (word-at-a-time nul searches only differ from a byte loop at 8 bytes and more): a filler with one byte
+    // from {0x01, 0x80, 0xFF} at every position and a nul at every position (and no nul at all), lengths 8..=17 (t ..=25)
+    if tier != Tier::Miri {
+        let maxl = tier.pick(17, 25, 0);
+        let mut long: Vec<Vec<u8>> = Vec::new();
+        for len in 8..=maxl {
+            for special in [0x01u8, 0x80, 0xFF] {
+                for sp in 0..len {
+                    for nul in (0..=len).filter(|&n| n != sp) {
+                        let mut v = vec![b'a'; len];
+                        v[sp] = special;
+                        if nul < len {
+                            v[nul] = 0;
+                        }
+                        long.push(v);
+                    }
+                }
+            }
+            // two nuls
+            for n1 in 0..len {
+                for n2 in n1 + 1..len {
+                    let mut v = vec![0xC3u8; len];
+                    v[n1] = 0;
+                    v[n2] = 0;
+                    long.push(v);
+                }
+            }
+        }
+        rep.merge(par_each(&long, n_threads(tier), |b, r| one(r, b)));
+    }
     rep.traces = rep.transitions;
     (
         "state = one byte string; transitions = from_bytes_until_nul, from_bytes_with_nul (success/failure agreement with core::ffi::CStr, equal CStr, same bytes by address) and to_bytes / to_bytes_with_nul / to_str on the CStr std builds from it; non-trivial = an interior nul or a nul that is not last".into(),
-        format!("all byte strings of length <= {n} over {alpha:02x?} ({})", all.len()),
+        format!("all byte strings of length <= {n} over {alpha:02x?} ({}); lengths 8..={}: a filler with one byte of [01, 80, ff] at every position x a nul at every position or none, and every pair of nul positions", all.len(), tier.pick(17, 25, 0)),
     )
 }
 
